@@ -321,9 +321,10 @@ def nextInSeq (cfg : Cfg) (be graceful : Bool) (s : RSt) : Out × RSt :=
     let s := { s with src := rest, pos := s.pos + 8 }
     (.tok .sequenceEnd, { s.pop with inSeq := false, pending := true })
   | .error .eof =>
-    if graceful ∧ (match s.stack with | t :: _ => t.pix | [] => false) = true then
-      (.done, { s with hardBreak := true, src := [] })
-    else (.err .readItemHeader, { s with hardBreak := true, src := [] })
+    -- end of input inside a pixel data sequence is the graceful end of the data set, provided the
+    -- decoder reports it as `ReadItemHeader`
+    (if graceful ∧ (match s.stack with | t :: _ => t.pix | [] => false) = true then .done
+     else .err .readItemHeader, { s with hardBreak := true, src := [] })
   | .error _ => (.err .readItemHeader, { s with hardBreak := true, src := s.src.drop 8 })
 
 /-- first item header of an encapsulated pixel data element -/
